@@ -2,7 +2,10 @@
 import re
 import sir
 
-RULE = ("C16.cursor: ParseState.{cur_index,line,utf16_col} are written only by the cursor methods (MIR field-writer query); in each of "
+RULE = ("C16.map/pair: the location an attribute is printed with comes from the same parsed item (same `(location, value)` tuple / same attribute) as its value. "
+        "C16.loc/after-skip: in the expression parser a start position is sampled only after look-ahead has skipped the blanks in front of the token. "
+        "C16.loc/if-chain: appending an elif/else branch extends the If node's location. "
+        "C16.cursor: ParseState.{cur_index,line,utf16_col} are written only by the cursor methods (MIR field-writer query); in each of "
         "them a line increment is followed by a column reset, a column increment takes its amount from encode_utf16 (never a byte length "
         "or chars().count()), every cursor move also moves the column, and try_parse restores all three fields together. C16.map: "
         "Stringifier.{line,utf16_col} are written only by write_str with the same discipline; write_token registers (generated "
@@ -189,8 +192,157 @@ def loc_rule(ctx):
     return obs
 
 
+def pair_rule(ctx):
+    """printer side: the location handed to an attribute writer belongs to the same parsed item as the value it prints"""
+    ob = ctx.ob
+    tc = ctx.tc
+    obs = []
+    n_pairs = 0
+    WRITERS = {"write_named_static_attr": (2, 3), "write_named_attr": (2, 3), "write_attr": (1, 2, 3), "write_static_attr": (1, 2, 3)}
+    for f in tc.fns:
+        if not f.body or "stringify" not in f.module:
+            continue
+        order = list(sir.walk(f.node, into_items=True))
+        from rules.c02 import FnScope
+        scope = FnScope(f.node, tc.fns)
+        params = set(x for x in f.param_names() if x)
+
+        def roots(e, at, depth=0):
+            """binders (as (id, label)) of the plain names used in e, following `let x = <init>` up to two levels"""
+            names = set(x["segs"][0] for x in sir.walk(e) if x.get("k") == "path" and len(x["segs"]) == 1 and x["segs"][0] not in ("None", "Some", "stringifier", "self"))
+            out = set()
+            for nm in names:
+                r = scope.resolve(nm, at)
+                if r is None:
+                    continue
+                if r[0] == "param":
+                    out.add(("param", nm))
+                elif r[0] == "let" and r[3]["pat"].get("k") == "p_ident" and r[1] is not None and depth < 2:
+                    sub = roots(r[1], r[3], depth + 1)
+                    out |= sub if sub else {(id(r[3]), nm)}
+                else:
+                    out.add((id(r[3]), "pattern@%d" % sir.line_of(r[3])))
+            return out
+        for n in order:
+            cname = (sir.call_name(n) or "").split("::")[-1] if n.get("k") == "call" else None
+            if cname not in WRITERS or len(n["args"]) < 4:
+                continue
+            args = [n["args"][i] for i in WRITERS[cname]]
+            rs = [roots(a, n) for a in args]
+            nonempty = [r for r in rs if r]
+            if len(nonempty) < 2:
+                continue
+            allb = set().union(*nonempty)
+            if any(b[0] == "param" for b in allb):
+                continue  # a forwarding helper: its callers are checked
+            n_pairs += 1
+            lits = [x.get("v") for x in sir.walk(n["args"][1]) if x.get("k") == "lit" and x.get("t") == "str"]
+            names = sorted(set(x["segs"][0] for a in args for x in sir.walk(a) if x.get("k") == "path" and len(x["segs"]) == 1 and x["segs"][0] not in ("None", "Some")))
+            label = "%s/%s" % ((lits[0] if lits else "plain"), "+".join(names)[:40])
+            common = set.intersection(*nonempty)
+            together = False
+            # tuple fields: location is `.0`, value is `.1` of the same tuple
+            fields_ok = True
+            if cname.startswith("write_named"):
+                l, v = sir.strip_ref(n["args"][2]), sir.strip_ref(n["args"][3])
+                if l.get("k") == "field" and v.get("k") == "field":
+                    lb = l.get("e") or l.get("base") or {}
+                    vb = v.get("e") or v.get("base") or {}
+                    fields_ok = str(l.get("name")) == "0" and str(v.get("name")) == "1" and sir.expr_str(lb) == sir.expr_str(vb)
+            ok = (bool(common) or together) and fields_ok
+            obs.append(ob("C16.map/pair/%s/%s" % (f.qual.split("::")[-1], label), ok, ctx.where(f),
+                          "location, name and value of `%s` (%s) %s" % (lits[0] if lits else sir.expr_str(n["args"][2])[:30], ", ".join(names), "come from one binding (%s)" % sorted(b[1] for b in common)[0] if common else ("are fields of different tuples" if not fields_ok else "come from DIFFERENT bindings: %s" % [sorted(b[1] for b in r) for r in rs])),
+                          witness=None if ok else "the source-map token of this attribute points at another attribute"))
+    if n_pairs < 15:
+        obs.append(ob("C16.floor/pairs", False, "stringify/tag.rs", "only %d attribute writes with a location found (floor 15)" % n_pairs))
+    return obs
+
+
+def after_skip_rule(ctx):
+    """expression parser: a start position is taken after look-ahead has skipped the blanks in front of the token"""
+    ob = ctx.ob
+    tc = ctx.tc
+    obs = []
+    REVIEWED = {"parse::expr::Expression::parse_expression_or_object_inner": "implicit object of a whole binding has no token of its own; its location is the binding content as delimited by the look-ahead"}
+    n_sites = 0
+    for f in tc.fns:
+        if not f.body or f.module[:2] != ["parse", "expr"]:
+            continue
+        # nodes inside closures passed to try_parse (look-ahead that is rolled back) do not count as skipping
+        rolled = set()
+        for x in sir.walk(f.body):
+            if x.get("k") == "mcall" and x["m"] == "try_parse":
+                for a in x["args"]:
+                    if a.get("k") == "closure":
+                        for y in sir.walk(a):
+                            rolled.add(id(y))
+        order = list(sir.walk(f.body))
+        pos_of = {id(x): i for i, x in enumerate(order)}
+        for x in order:
+            if not (x.get("k") == "local" and x.get("init") is not None and sir.expr_str(x["init"]).replace(" ", "") == "ps.position()" and x["pat"].get("k") == "p_ident"):
+                continue
+            v = x["pat"]["name"]
+            used_as_start = any(y.get("k") == "range" and y.get("from") is not None and sir.expr_str(y["from"]) == v for y in order)
+            if not used_as_start or id(x) in rolled:
+                continue
+            n_sites += 1
+            before = [y for y in order[:pos_of[id(x)]] if y.get("k") == "mcall" and sir.expr_str(y["recv"]) == "ps" and y["m"] in ("peek", "peek_n", "peek_str", "peek_chars") and id(y) not in rolled]
+            key = "C16.loc/after-skip/%s/%s" % (f.qual, v)
+            if not before and f.qual in REVIEWED:
+                obs.append(ob(key, True, ctx.where(f), "reviewed exception: " + REVIEWED[f.qual]))
+                continue
+            obs.append(ob(key, bool(before), ctx.where(f), "start position `%s` is taken %s" % (v, "after `ps.%s` has skipped the blanks in front of the token" % before[-1]["m"] if before else "before any look-ahead: in blank-skipping mode it lies at the blanks (or comment) in front of the token"),
+                          witness=None if before else "`{{ obj.\n  field }}`: the member name's location starts at the line break"))
+    if n_sites < 4:
+        obs.append(ob("C16.floor/start-positions", False, "parse/expr.rs", "only %d start positions found (floor 4)" % n_sites))
+    return obs
+
+
+def if_chain_rule(ctx):
+    """parser side: a wx:elif / wx:else branch appended to an existing If node extends that node's location to the new branch"""
+    ob = ctx.ob
+    tc = ctx.tc
+    ep = [f for f in tc.fns if f.base == "Element" and f.name == "parse" and f.body]
+    if not ep:
+        return [ob("C16.loc/if-chain/anchor", False, "parse/tag.rs", "Element::parse not found")]
+    f = ep[0]
+    pm = sir.parent_map(f.node)
+    obs = []
+    k = 0
+    for n in sir.walk(f.node, into_items=True):
+        if not (n.get("k") == "local" and n.get("else") is not None and n.get("init") is not None):
+            continue
+        if not any(x.get("k") == "p_struct" and x["segs"][-1] == "If" for x in sir.walk(n["pat"])):
+            continue
+        if "if_index" not in sir.expr_str(n["init"]):
+            continue
+        k += 1
+        what = [b for b, _p in sir.pat_bindings(n["pat"]) if b in ("branches", "else_branch")]
+        loc_bind = None
+        for x in sir.walk(n["pat"]):
+            if x.get("k") == "p_struct":
+                for fl in x["fields"]:
+                    if fl["name"] == "tag_location" and fl["pat"].get("k") == "p_ident":
+                        loc_bind = fl["pat"]["name"]
+        blk = pm.get(id(n))
+        ok = False
+        d = "the If node's tag_location is not even bound"
+        if loc_bind and blk is not None and blk.get("k") == "block":
+            asg = [x for st in blk["stmts"] for x in ([st.get("e")] if st.get("k") == "expr" else []) if x is not None and x.get("k") == "assign" and sir.expr_str(x["l"]).replace(" ", "") == "%s.end" % loc_bind]
+            ok = len(asg) == 1 and sir.expr_str(asg[0]["r"]).startswith("Some(") and "tag_location" in sir.expr_str(asg[0]["r"])
+            d = "`%s.end = Some(<end of the new branch's tag>)` %s" % (loc_bind, "follows the append" if ok else "is missing")
+        obs.append(ob("C16.loc/if-chain/%s" % (what[0] if what else "branch#%d" % k), ok, ctx.where(f), "appending to %s: %s" % (what[0] if what else "the If node", d),
+                      witness=None if ok else "the If node's location stops before its elif/else branches; child locations lie outside their parent's"))
+    if k < 2:
+        obs.append(ob("C16.floor/if-chain", False, ctx.where(f), "only %d sites extend an existing If node (floor 2)" % k))
+    return obs
+
+
 def run(ctx):
     obs = cursor_rule(ctx)
     obs += map_rule(ctx)
     obs += loc_rule(ctx)
+    obs += pair_rule(ctx)
+    obs += after_skip_rule(ctx)
+    obs += if_chain_rule(ctx)
     return obs
